@@ -141,7 +141,7 @@ func replayFinite(prop, which, path string) int {
 		_ = json.Unmarshal(rf.Config, &cfg)
 		var p int64
 		_, _, v = VisitValid(cfg, rf.History, which, &p)
-		fmt.Println("operations:", opNames(ValidOps, rf.History))
+		fmt.Println("operations:", opNames(ValidOps, cfg.mapOps(rf.History)))
 	}
 	if v != "" {
 		_, msg := SplitViol(v)
@@ -162,6 +162,19 @@ func validConfigs(thorough bool) []ValidCfg {
 				c := ValidCfg{TTL: ttl, GC: gc, Auto: auto, MaxAdvances: 5, MaxMacros: 2}
 				if thorough {
 					c.MaxAdvances, c.MaxMacros = 6, 3
+				}
+				out = append(out, c)
+			}
+		}
+	}
+	// deep search under the shape abstraction (reaches wrapped, grown and shrunk rings far beyond the depth
+	// the exact search can afford)
+	for _, ttl := range []int{2, 3} {
+		for _, gc := range []int{-1, 0, 4 * ttl} {
+			for _, auto := range []bool{false, true} {
+				c := ValidCfg{TTL: ttl, GC: gc, Auto: auto, MaxAdvances: 12, MaxMacros: 3, Shape: true, Ops: []int{0, 3, 4, 5, 6, 7}, MaxHeld: 18}
+				if thorough {
+					c.MaxAdvances, c.MaxMacros, c.MaxHeld = 20, 4, 36
 				}
 				out = append(out, c)
 			}
@@ -195,14 +208,23 @@ func validCheck(prop, which string) *sqrun.Check {
 					return k, ok, v
 				}
 				d := depth
-				if !c.Thorough {
+				if cfg.Shape {
+					d = 18
+					if c.Thorough {
+						d = 28
+					}
+				} else if !c.Thorough {
 					if cfg.TTL == 3 {
 						d = depth - 2
 					} else if cfg.GC == 4 || cfg.GC == 8*cfg.TTL {
 						d = depth - 1
 					}
 				}
-				res := bfs.Run(bfs.Config{NOps: len(ValidOps), MaxDepth: d, Deadline: c.Deadline, Visit: knownFilter(c, &mu, visit)})
+				nops := len(ValidOps)
+				if cfg.Ops != nil {
+					nops = len(cfg.Ops)
+				}
+				res := bfs.Run(bfs.Config{NOps: nops, MaxDepth: d, Deadline: c.Deadline, Visit: knownFilter(c, &mu, visit)})
 				states += res.States
 				trans += res.Transitions
 				probes += pr.Load()
@@ -211,14 +233,14 @@ func validCheck(prop, which string) *sqrun.Check {
 				}
 				per = append(per, map[string]any{"config": cfg, "depth": res.Depth, "states": res.States, "transitions": res.Transitions, "probes": pr.Load(), "exhaustive": res.Exhaustive})
 				if len(samples) < 3 && len(res.Samples) > 0 {
-					samples = append(samples, map[string]any{"config": cfg, "history": opNames(ValidOps, res.Samples[len(res.Samples)-1])})
+					samples = append(samples, map[string]any{"config": cfg, "history": opNames(ValidOps, cfg.mapOps(res.Samples[len(res.Samples)-1]))})
 				}
 				if res.Violation != "" {
 					sig, msg := SplitViol(res.Violation)
 					hist := res.History
 					c.Rep.Add(sig, msg, func() string {
 						return ev.WriteReplay(prop, fmt.Sprintf("valid-ttl%d-gc%d-auto%v-%s", cfg.TTL, cfg.GC, cfg.Auto, sig), replayFile{Property: prop, Kind: "valid", Config: cfg,
-							History: hist, Ops: opNames(ValidOps, hist), Msg: msg, Sig: sig, How: "./check " + prop + " --replay <this file>"})
+							History: hist, Ops: opNames(ValidOps, cfg.mapOps(hist)), Msg: msg, Sig: sig, How: "./check " + prop + " --replay <this file>"})
 					})
 				}
 			}
